@@ -27,7 +27,7 @@ from ..runner import REPO, HarnessError, d64, digest_of, violation
 from ..sched import Scheduler, SchedulerError
 
 PROP = "C13"
-RUNS = {"quick": 1600, "thorough": 250000}
+RUNS = {"quick": 1600, "thorough": 120000}
 BLOCK = {"quick": 20, "thorough": 500}
 WATCHDOG_S = 3600
 TRACE_SAMPLE = 0  # scenarios run in child processes; reach is reported as switch sites instead
